@@ -75,7 +75,8 @@ def cases(draw):
         "index": draw(st.integers(0, n - 1)),
         "delta": draw(st.sampled_from([F(1, 10 ** 12), F(1, 1000), F(1), F(-1, 100)])),
         "factor": draw(st.sampled_from([F(2), F(1, 3), F(7, 2)])),
-        "noncurve": draw(st.sampled_from(["int", "none", "list", "knotvector", "str"])),
+        "noncurve": draw(st.sampled_from(["int", "none", "list", "knotvector", "str", "function", "function-weights",
+                                            "own-points", "ndarray", "pair", "class", "fraction"])),
         "history": draw(st.sampled_from(lib.HISTORY_MODES)),
     }
 
@@ -102,8 +103,18 @@ def check(case, out):
     if variant == "noncurve":
         A = build_from_state(a)
         snapA = lib.snapshot(A)
-        other = {"int": 1, "none": None, "list": [1, 2], "str": "curve",
-                 "knotvector": lib.KnotVector(list(a.U))}[case["noncurve"]]
+        # anything that is not a curve, including the library's other public objects on the same knot vector
+        def basis(weights):
+            f = lib.Function(list(a.U))
+            if weights:
+                f.weights = [1 + F(i, 3) for i in range(f.npts)]
+            return f
+        other = {"int": lambda: 1, "none": lambda: None, "list": lambda: [1, 2], "str": lambda: "curve",
+                 "knotvector": lambda: lib.KnotVector(list(a.U)),
+                 "function": lambda: basis(False), "function-weights": lambda: basis(True),
+                 "own-points": lambda: list(A.ctrlpoints), "ndarray": lambda: lib.np.array([float(x[0]) for x in a.P]),
+                 "pair": lambda: (A.knotvector, A.ctrlpoints), "class": lambda: lib.Curve,
+                 "fraction": lambda: F(1, 2)}[case["noncurve"]]()
         for label, fn, want in (("A == x", lambda: A == other, False), ("A != x", lambda: A != other, True)):
             try:
                 got = fn()
